@@ -23,7 +23,7 @@ Lemma substvar_len : forall i name p r, substvar_loop name i = Ok (p, r) -> (len
 Proof.
   induction i as [|c i IH]; intros name p r; cbn [substvar_loop]; [discriminate|].
   destruct (eqc c 0); [discriminate|]. destruct (eqc c 125).
-  - intros E. inversion E; subst. cbn. lia.
+  - cbv zeta. destruct (_ || _ || _); [|discriminate]. intros E. inversion E; subst. pose proof (eat_ws_len i). cbn. lia.
   - intros E. apply IH in E. cbn. lia.
 Qed.
 Lemma arch_named_len name i a r : arch_named name i = Ok (a, r) -> r = i.
@@ -265,7 +265,7 @@ Lemma possi_loop_S f p rel i : possi_loop (S f) p rel i =
   if eqc c 58 then
     match parse_multiarch i with
     | Ok (a, i) => possi_loop f (set_arch p a) rel i | Err => Err | OutOfFuel => OutOfFuel end
-  else if is_ws c || eqc c 40 then
+  else if is_ws c || eqc c 40 || eqc c 91 || eqc c 60 then
     match controllers f p i with
     | Ok (p, i) => possi_loop f p rel i | Err => Err | OutOfFuel => OutOfFuel end
   else if eqc c 44 || eqc c 124 || eqc c 0 then
@@ -273,7 +273,7 @@ Lemma possi_loop_S f p rel i : possi_loop (S f) p rel i =
   else possi_loop f (add_name p c) rel (adv i).
 Proof. reflexivity. Qed.
 
-Lemma stop3_facts c : stop3 c = true -> eqc c 58 = false /\ is_ws c = false /\ eqc c 40 = false.
+Lemma stop3_facts c : stop3 c = true -> eqc c 58 = false /\ is_ws c = false /\ (eqc c 40 || (eqc c 91 || eqc c 60)) = false.
 Proof.
   unfold stop3, eqc, is_ws, eqc. intros H.
   apply orb_true_iff in H as [H|H]; [apply orb_true_iff in H as [H|H]|]; apply N.eqb_eq in H; rewrite H; repeat split; reflexivity.
@@ -292,9 +292,9 @@ Proof.
     destruct (multiarch_loop [] (adv i)) as [[a i1]| |]; [|split; discriminate|contradiction]. specialize (Lm a i1 eq_refl).
     assert (Hf1 : (len i1 + 1 < f)%nat) by lia. destruct (IH (set_arch p a) rel i1 Hf1) as [A B]. split; [exact A|].
     intros rel' r E. destruct (B _ _ E) as [B1 _]. split; [lia|]. intros _. lia.
-  - destruct (is_ws (peek i) || eqc (peek i) 40) eqn:HC.
+  - destruct (is_ws (peek i) || eqc (peek i) 40 || eqc (peek i) 91 || eqc (peek i) 60) eqn:HC.
     + assert (Hn : stop3 (peek i) = false).
-      { destruct (stop3 (peek i)) eqn:S; [|reflexivity]. destruct (stop3_facts _ S) as (_&W&P). rewrite W, P in HC. discriminate. }
+      { destruct (stop3 (peek i)) eqn:S; [|reflexivity]. destruct (stop3_facts _ S) as (_&W&P). rewrite <- !orb_assoc in HC. rewrite W in HC. cbn [orb] in HC. rewrite P in HC. discriminate. }
       assert (Hf0 : (len i < f)%nat) by lia. destruct (controllers_fuel f p i Hf0) as [A B].
       destruct (controllers f p i) as [[p1 i1]| |] eqn:C; [|split; discriminate|contradiction].
       destruct (B _ _ eq_refl) as (B1&B2&B3). specialize (B3 Hn).
@@ -323,7 +323,7 @@ Proof.
     assert (Ej : eat_ws j = j) by (subst j; apply eat_ws_id_local; apply eat_ws_head). rewrite Ej.
     assert (NF : forall nm x, substvar_loop nm x <> OutOfFuel).
     { intros nm x. revert nm. induction x as [|c x IHx]; intros nm; cbn; [discriminate|].
-      destruct (eqc c 0); [discriminate|]. destruct (eqc c 125); [discriminate|apply IHx]. }
+      destruct (eqc c 0); [discriminate|]. destruct (eqc c 125); [cbv zeta; destruct (_ || _ || _); discriminate|apply IHx]. }
     destruct (substvar_loop [] (adv (adv j))) as [[p1 r1]| |] eqn:SV; [|split; discriminate|exfalso; eapply NF; eauto].
     split; [discriminate|]. intros rel' r E. inversion E; subst.
     pose proof (substvar_len _ _ _ _ SV). pose proof (adv_len (adv j)). pose proof (adv_len_lt j Jne). split; lia.
